@@ -24,6 +24,7 @@ func init() {
 	reg("C13", "C13.M", "E1+E2", "metric label values (taken from event fields) are made valid UTF-8 before they reach a panicking prometheus Vec method", 4, ruleMetricLabelsSanitized)
 	reg("C13", "C13.P", "E2", "a pointer field assigned from a constructor that can return nil is dereferenced in the event path only under a non-nil test", 1, ruleNilPointerFields)
 	reg("C13", "C13.F", "E6", "a float an action writes into the event is finite (integer conversion, or parsed with the error checked)", 1, ruleFiniteFloats)
+	reg("C13", "C13.E", "E6", "event.Buf is append-only for actions (earlier actions keep views into it)", 1, ruleEventBufAppendOnly)
 	reg("C13", "C13.D", "E2", "no integer division or remainder by a value that may be zero (reviewed table otherwise)", 1, ruleActionDivisions)
 	reg("C13", "C13.J", "E2", "the time-out exit of a joining action is unreachable: busy results only while the joining flag is true (same rule as C15.R7)", 1, ruleBusyOnlyWhileJoining)
 	reg("C13", "C13.A", "E6", "no unsafe view of plugin-owned or pooled storage is left in the event or returned", 1, ruleActionBufferViews)
@@ -349,6 +350,50 @@ func ruleReviewedInvariants(c *Ctx, r *Rule) {
 		r.Inst(1)
 		r.Ob(c.stableField(n, f.field), f.typ+"."+f.field+"|written-only-at-start", n.Obj().Pos(),
 			f.pkg+"."+f.typ+"."+f.field+" is (re)assigned only by initialisation code, so the length relation established at Start holds while events are processed")
+	}
+	// parse_es: the reviewed exit `Panicf("wrong state")` is unreachable only because the two
+	// "what to do with the next line" flags are never true together: a flag is set to true only where
+	// the other one is known false, and no path leads from there to setting the other one in the same call
+	{
+		pePkg := modulePath + "/plugin/action/parse_es"
+		type fw struct {
+			in   ssa.Instruction
+			fn   *ssa.Function
+			flag string
+		}
+		var sets []fw
+		for _, fl := range []string{"passNext", "discardNext"} {
+			for _, a := range c.fieldAccesses(pePkg, "Plugin", fl) {
+				if a.write {
+					if k, isK := constBool(a.val); isK && k {
+						sets = append(sets, fw{a.in, a.fn, fl})
+					}
+				}
+			}
+		}
+		if len(sets) < 2 {
+			r.Unresolved("parse_es passNext / discardNext setters")
+		} else {
+			for i, sa := range sets {
+				other := map[string]string{"passNext": "discardNext", "discardNext": "passNext"}[sa.flag]
+				r.Inst(1)
+				known := false
+				for _, l := range c.unitGuards(sa.in) {
+					if !l.pol && isLoadOfField(l.v, pePkg, "Plugin", other) {
+						known = true
+					}
+				}
+				both, _ := c.pathExists(sa.fn, sa.in, func(in ssa.Instruction) bool {
+					for _, sb := range sets {
+						if sb.flag == other && sb.in == in {
+							return true
+						}
+					}
+					return false
+				}, nil)
+				r.Ob(known && !both, fmt.Sprintf("parse_es|%s#%d|flags-exclusive", sa.flag, i), sa.in.Pos(), "parse_es sets "+sa.flag+" only where "+other+" is known false, and does not go on to set "+other+" in the same call (both true makes the next event hit Panicf(\"wrong state\") on the processor goroutine)")
+			}
+		}
 	}
 	// k8s multi-line buffer
 	k8sPkg := modulePath + "/plugin/input/k8s"
@@ -1100,4 +1145,63 @@ func (c *Ctx) finiteFloat(v ssa.Value, at ssa.Instruction, d int) (bool, string)
 		return false, "parsed by " + q + " but written without `err == nil` (an out-of-range number parses to ±Inf together with ErrRange)"
 	}
 	return false, "value " + c.path(v) + " is not known to be finite"
+}
+
+// ruleEventBufAppendOnly: event.Buf is the event's own byte store; actions keep unsafe views into it
+// (field names, joined values, encoded sub-trees) that live as long as the event. An action may
+// therefore only APPEND to it: re-slicing it to a shorter length (`event.Buf[:0]`) lets the next
+// write run over bytes the JSON tree still points to.
+func ruleEventBufAppendOnly(c *Ctx, r *Rule) {
+	n := 0
+	for _, fn := range c.actionScope() {
+		for _, b := range fn.Blocks {
+			for _, in := range b.Instrs {
+				sl, ok := in.(*ssa.Slice)
+				if !ok || !isLoadOfField(stripConv(sl.X), pipelinePkg, "Event", "Buf") {
+					continue
+				}
+				n++
+				if sl.High == nil {
+					continue // Buf[s:] a view of the tail
+				}
+				f := lin(sl.High)
+				okHigh := false
+				// [:len(Buf)+k] with k >= 0 cannot occur; allow only High == len(Buf) spelled out
+				if f.k == 0 && len(f.t) == 1 {
+					for key, cnt := range f.t {
+						if key.isLen && cnt == 1 && isLoadOfField(stripConv(key.v), pipelinePkg, "Event", "Buf") {
+							okHigh = true
+						}
+					}
+				}
+				// a view [a:b] that is only read (not used as an append destination) is harmless
+				usedAsDest := false
+				if refs := sl.Referrers(); refs != nil {
+					for _, rf := range *refs {
+						if call, isCall := rf.(*ssa.Call); isCall {
+							if len(call.Call.Args) > 0 && call.Call.Args[0] == ssa.Value(sl) {
+								if _, isB := call.Call.Value.(*ssa.Builtin); isB || (call.Call.StaticCallee() != nil && (strings.HasPrefix(call.Call.StaticCallee().Name(), "Encode") || strings.HasPrefix(call.Call.StaticCallee().Name(), "Append"))) {
+									usedAsDest = true
+								}
+							}
+							for i, a := range call.Call.Args {
+								if i > 0 && a == ssa.Value(sl) && call.Call.StaticCallee() != nil && strings.HasPrefix(call.Call.StaticCallee().Name(), "Encode") {
+									usedAsDest = true
+								}
+							}
+						}
+						if st, isSt := rf.(*ssa.Store); isSt && st.Val == ssa.Value(sl) {
+							if _, fl, _, okf := fieldOf(st.Addr); okf && fl == "Buf" {
+								usedAsDest = true
+							}
+						}
+					}
+				}
+				r.Inst(1)
+				r.Ob(okHigh || !usedAsDest, fmt.Sprintf("%s|event-buf-rewound#%d", c.fnName(fn), n), sl.Pos(), "event.Buf is only appended to by actions; a shortened event.Buf used as a write destination overwrites bytes that earlier actions left views into (cut at "+c.linString(f)+")")
+			}
+		}
+	}
+	r.Inst(1)
+	r.Ob(true, "scope", token.NoPos, fmt.Sprintf("%d slices of Event.Buf in the event path of actions", n))
 }
